@@ -30,7 +30,64 @@ type FuncCFG struct {
 	LoopOf  map[*ssa.BasicBlock]*Loop // innermost loop containing block (Root if none)
 	rpo     map[*ssa.BasicBlock]int
 	Irreducible bool
+	pdom    [][]uint64 // pdom[i] = bitset of blocks that post-dominate block i (incl. itself)
 }
+
+// PostDominates reports whether every path from d to a function exit passes through b.
+func (c *FuncCFG) PostDominates(b, d *ssa.BasicBlock) bool {
+	if c.pdom == nil {
+		c.computePdom()
+	}
+	return c.pdom[d.Index][b.Index/64]&(1<<uint(b.Index%64)) != 0
+}
+
+func (c *FuncCFG) computePdom() {
+	blocks := c.Fn.Blocks
+	n := len(blocks)
+	words := (n + 63) / 64
+	full := make([]uint64, words)
+	for i := 0; i < n; i++ {
+		full[i/64] |= 1 << uint(i%64)
+	}
+	c.pdom = make([][]uint64, n)
+	isExit := make([]bool, n)
+	for i, b := range blocks {
+		c.pdom[i] = make([]uint64, words)
+		if len(b.Succs) == 0 {
+			isExit[i] = true
+			c.pdom[i][i/64] = 1 << uint(i%64)
+		} else {
+			copy(c.pdom[i], full)
+		}
+	}
+	changed := true
+	tmp := make([]uint64, words)
+	for changed {
+		changed = false
+		for i := n - 1; i >= 0; i-- {
+			b := blocks[i]
+			if isExit[i] {
+				continue
+			}
+			copy(tmp, full)
+			for _, s := range b.Succs {
+				ps := c.pdom[s.Index]
+				for w := range tmp {
+					tmp[w] &= ps[w]
+				}
+			}
+			tmp[i/64] |= 1 << uint(i%64)
+			for w := range tmp {
+				if tmp[w] != c.pdom[i][w] {
+					changed = true
+					c.pdom[i][w] = tmp[w]
+				}
+			}
+		}
+	}
+}
+
+
 
 func buildCFG(fn *ssa.Function) *FuncCFG {
 	c := &FuncCFG{Fn: fn, LoopOf: map[*ssa.BasicBlock]*Loop{}, rpo: map[*ssa.BasicBlock]int{}}
